@@ -53,8 +53,10 @@ def run(loader, R, tier):
         "R20.6": "both type-code switches have a throwing default",
         "R20.7": "load_rcp_basic translates cereal::Exception into "
                  "SerializationError",
-        "R20.9": "no unvalidated two-integer rational construction from "
-                 "archive fields inside load_basic",
+        "R20.10": "factories the loaders hand untrusted values to guard "
+                  "every narrowing cast of their generic parameters",
+        "R20.11": "no unvalidated two-integer rational construction from "
+                  "archive fields inside load_basic",
         "R20.8": "DenseMatrix::loads validates rows*cols against the "
                  "element count before constructing the matrix",
         "R20.9": "enumeration of invariant-bearing constructions from "
@@ -221,7 +223,7 @@ def run(loader, R, tier):
     R.floor("R20.2 sites", R.instances.get("R20.2", 0), 3)
     R.floor("R20.3 sites", R.instances.get("R20.3", 0), 3)
 
-    # ------------------------------------------------------------ R20.9
+    # ------------------------------------------------------------ R20.11
     # numbers rebuilt from untrusted archive fields: inside the load_basic
     # overloads a rational_class may only be formed from two read values
     # under a zero test of the denominator (canonicalisation divides by it:
@@ -248,20 +250,48 @@ def run(loader, R, tier):
                 key = "%s@%s" % (short(f["params"][1]["t"]) if len(
                     f.get("params", ())) > 1 else short(f["qn"]),
                     n.get("l"))
-                R.instance("R20.9", key)
+                R.instance("R20.11", key)
                 d = n["a"][1]
                 if nonzero_literal(d) or guarded_nonzero(d, guards, f):
                     return
                 R.violation(
-                    "R20.9", key, prog.loc(f, n.get("l")),
+                    "R20.11", key, prog.loc(f, n.get("l")),
                     "load_basic builds rational_class(%s) from archive "
                     "fields with no zero test of the denominator: crafted "
                     "bytes with a zero denominator kill the process "
                     "(SIGFPE in mpq_canonicalize)" % ", ".join(
                         show(a)[:30] for a in n["a"]))
         sym.visit_guarded(f["body"], cb9)
-    R.instance("R20.9", "load_basic overloads scanned", nontrivial=False,
+    R.instance("R20.11", "load_basic overloads scanned", nontrivial=False,
                sample={"two_integer_rational_constructions": n9})
+
+    # ------------------------------------------------------------ R20.10
+    # validators the loaders rely on: a load_basic overload hands the values
+    # it read to a factory that takes generic Number/Basic parameters
+    # (Complex::from_two_nums, ...); inside such a factory every narrowing
+    # cast of those parameters must be guarded by a dynamic type test,
+    # otherwise crafted bytes put another kind there (type confusion)
+    from rules.c40 import cast_guards, GENERIC
+    callees = {}
+    for u, f in prog.functions.items():
+        if f.get("n") != "load_basic" or f.get("dependent") \
+                or f.get("tk") == "pattern" or not f.get("body"):
+            continue
+        for n in walk(f["body"]):
+            if n.get("k") in ("call", "mcall") and n.get("u") \
+                    in prog.functions:
+                g = prog.functions[n["u"]]
+                if g.get("body") and any(strip_type(p["t"]) in GENERIC
+                                         for p in g.get("params", ())) \
+                        and (g.get("qn") or "").startswith("SymEngine::") \
+                        and g.get("n") != "load_basic":
+                    callees[g["u"]] = g
+    cnt = {}
+    for g in sorted(callees.values(), key=lambda g: g["qn"]):
+        R.instance("R20.10", short(g["qn"]), nontrivial=False)
+        cast_guards(prog, R, "R20.10", g, "validator", cnt)
+    R.info["validators_called_by_loaders"] = sorted(
+        short(g["qn"]) for g in callees.values())
 
     # ------------------------------------------------------------ R20.5
     n5 = 0
@@ -327,6 +357,32 @@ def run(loader, R, tier):
                                or (c.get("op") == "==" and pol))
                           and mentions(c, rn) and mentions(c, cn)
                           and mentions(c, on) and "size" in show(c))
+            # the product must not wrap: computed in a 64-bit type
+            narrow = None
+            for g in facts:
+                if g[0] == "case":
+                    continue
+                c, pol = g
+                if mentions(c, rn) and mentions(c, cn) and "size" in show(c):
+                    for x in walk(c):
+                        if x.get("k") == "bin" and x.get("op") == "*":
+                            wide = all(
+                                "long" in (y.get("t") or "")
+                                or "size_t" in (y.get("t") or "")
+                                for y in x["a"] if y.get("k") == "cast") \
+                                and all(y.get("k") == "cast"
+                                        for y in x["a"])
+                            if not wide and "long" not in (x.get("ot")
+                                                           or ""):
+                                narrow = show(x)
+            if ok and narrow:
+                R.violation(
+                    "R20.8", "DenseMatrix::loads:width",
+                    prog.loc(dl, n.get("l")),
+                    "DenseMatrix::loads checks `%s` against the element "
+                    "count, but the product is computed in 32 bits and "
+                    "wraps: crafted dimensions such as 65536 x 65536 pass "
+                    "the check with no elements" % narrow)
             if not ok:
                 R.violation(
                     "R20.8", "DenseMatrix::loads", prog.loc(dl, n.get("l")),
